@@ -94,6 +94,7 @@ type ObResult struct {
 	Output  string
 	Bounded bool // instance-level / arity-bounded
 	Note    string
+	ReplaySrc string
 }
 
 type CheckRun struct {
@@ -264,6 +265,24 @@ func runCheck(prop, tier string, rebaseline bool) int {
 			run.Trusted[k] = m.Assume
 		}
 	}
+	if s2 != nil && !rebaseline {
+		replayStage2(run, s2)
+		if os.Getenv("GOVC_REPLAY_ALL") != "" {
+			// self-test of the replay harness: on a tree where everything is proved, no conformance test may fail
+			seen := map[*mockInfo]bool{}
+			for _, mi := range s2.genIndex {
+				if seen[mi] || len(mi.methods) == 0 {
+					continue
+				}
+				seen[mi] = true
+				rr := s2.replayMock(mi)
+				fmt.Printf("replay-selftest %s %s ran=%v failed=%v\n", mi.sc.flagString()+";"+strings.Join(mi.sc.Args, "+"), mi.mockName, rr.Ran, rr.Failed)
+				if !rr.Ran || len(rr.Failed) > 0 {
+					fmt.Println(firstLines(rr.Output, 25))
+				}
+			}
+		}
+	}
 	return finishCheck(run, rebaseline)
 }
 
@@ -397,6 +416,12 @@ func finishCheck(run *CheckRun, rebaseline bool) int {
 	}
 	for _, k := range gorder {
 		rs := groups[k]
+		for i, x := range rs {
+			if x.replayed() {
+				rs[0], rs[i] = rs[i], rs[0]
+				break
+			}
+		}
 		violations++
 		path := writeReplay(prop, k, rs)
 		suffix := ""
@@ -464,6 +489,7 @@ func writeReplay(prop string, group string, rs []*ObResult) string {
 		"query_file":         r.File,
 		"verifier_output":    r.Output,
 		"replayed":           r.replayed(),
+		"replay_test_source": r.ReplaySrc,
 		"failed_obligations": all,
 	}
 	data, _ := json.MarshalIndent(doc, "", " ")
@@ -551,3 +577,66 @@ func writeEvidence(run *CheckRun, kfLines []string, violations int) {
 }
 
 func round3(x float64) float64 { return float64(int(x*1000+0.5)) / 1000 }
+
+// replayStage2 tries to confirm failed obligations on emitted code by running the generated mock.
+func replayStage2(run *CheckRun, s2 *Stage2) {
+	if os.Getenv("GOVC_DEBUG") != "" {
+		fmt.Fprintf(os.Stderr, "replayStage2: %d results, %d indexed functions\n", len(run.Results), len(s2.genIndex))
+	}
+	done := map[*mockInfo]*ReplayResult{}
+	n := 0
+	for _, r := range run.Results {
+		if r.OK || !strings.HasPrefix(r.Name, "gen[") {
+			continue
+		}
+		i := strings.LastIndex(r.Name, "/")
+		if i < 0 {
+			continue
+		}
+		prefix, clause := r.Name[:i], r.Name[i+1:]
+		if k := strings.Index(clause, ":"); k >= 0 && strings.HasPrefix(clause, "safe:") {
+			clause = "no-runtime-panic"
+		}
+		mi := s2.genIndex[prefix]
+		sub := clauseSubtest[clause]
+		if mi == nil || sub == "" {
+			if os.Getenv("GOVC_DEBUG") != "" {
+				fmt.Fprintf(os.Stderr, "replay: no target for %s (mock %v, subtest %q)\n", r.Name, mi != nil, sub)
+			}
+			continue
+		}
+		rr, ok := done[mi]
+		if !ok {
+			if n >= 3 {
+				continue
+			}
+			n++
+			rr = s2.replayMock(mi)
+			done[mi] = rr
+			if os.Getenv("GOVC_DEBUG") != "" {
+				fmt.Fprintf(os.Stderr, "replay %s %s: ran=%v failed=%v\n%s\n", mi.sc.flagString(), mi.mockName, rr.Ran, rr.Failed, firstLines(rr.Output, 30))
+			}
+		}
+		if rr.Ran && rr.Failed[sub] {
+			r.Detail += "\nREPLAYED: " + sub + " fails on the mock generated by the real moq (" + rr.Cmd + "):\n" + excerpt(rr.Output, sub)
+			r.ReplaySrc = rr.TestFile
+		} else if rr.Ran {
+			r.Detail += "\nreplay attempted (" + sub + "): the conformance test did not reproduce a failure"
+		} else if os.Getenv("GOVC_DEBUG") != "" {
+			fmt.Fprintf(os.Stderr, "replay did not run: %s\n", rr.Output)
+		}
+	}
+}
+
+func excerpt(out, sub string) string {
+	var keep []string
+	for _, l := range strings.Split(out, "\n") {
+		if strings.Contains(l, "zz_replay") || strings.Contains(l, "--- FAIL") || strings.Contains(l, "DATA RACE") || strings.Contains(l, "panic") {
+			keep = append(keep, l)
+		}
+		if len(keep) > 25 {
+			break
+		}
+	}
+	return strings.Join(keep, "\n")
+}
